@@ -9,7 +9,7 @@
    (tools/props/C07.py), not proved: see DESIGN.md. *)
 From Coq Require Import NArith List Bool.
 From V Require Import Base.Res Base.Word Spec.Tree Spec.Blake3 Model.Portable Model.Platform Model.RsChunk Model.RsWide
-  Model.RsXof Model.RsHasher Model.CHasher Proofs.C01P Proofs.XofP Proofs.C04P Proofs.IoP Proofs.C02P Proofs.CHasherP4.
+  Model.RsXof Model.RsHasher Model.CHasher Proofs.C01P Proofs.XofP Proofs.C04P Proofs.IoP Proofs.C02P Proofs.CHasherP4 gen.GenAsmFrames Model.AsmFrame Proofs.AsmFrameP.
 Import ListNotations.
 Open Scope N_scope.
 
@@ -56,6 +56,54 @@ Proof.
   exists h. eexists. split; [exact H1|]. split; [exact H2|]. apply stream_length.
 Qed.
 
+(* ---- the hand-written Unix assembly: frame and callee-saved-register discipline, decided on the TRANSLATED
+   functions (gen/GenAsmFrames.v, regenerated from the four .S files on every run) ---- *)
+Theorem C07_asm_frames_ok : forallb frame_ok asm_frames = true.
+Proof. vm_compute. reflexivity. Qed.
+
+Lemma C07_row_ok r : In r asm_frames -> frame_ok r = true.
+Proof. intros H. pose proof C07_asm_frames_ok as A. rewrite forallb_forall in A. apply A. exact H. Qed.
+
+(* every rsp-based memory operand of every function stays inside the function's own frame [rsp, rbp): never below
+   rsp (red zone / signal frames), never into the saved registers or the return address - for EVERY incoming
+   stack alignment (the `and rsp, -64` realignment may consume 0..63 bytes of slack) *)
+Theorem C07_asm_stack_accesses_inside_frame : forall r, In r asm_frames -> forall a, In a (f_accesses r) ->
+  forall sp0, f_frame r + 63 <= sp0 ->
+  let sp := frame_sp (f_realigned r) sp0 (f_frame r) in
+  sp <= sp + fst a /\ sp + fst a + snd a <= sp0.
+Proof.
+  intros r Hr a Ha sp0 Hs. pose proof (C07_row_ok r Hr) as Hok. unfold frame_ok in Hok.
+  apply andb_true_iff in Hok. destruct Hok as [Hok _]. apply andb_true_iff in Hok. destruct Hok as [Hok _].
+  apply andb_true_iff in Hok. destruct Hok as [Hok _].
+  rewrite forallb_forall in Hok. specialize (Hok a Ha). apply N.leb_le in Hok.
+  destruct (frame_access_inside (f_realigned r) sp0 (f_frame r) (fst a) (snd a) Hs Hok) as (G1 & G2 & _).
+  split; assumption.
+Qed.
+
+(* on return every callee-saved general register (rbx, rbp, r12-r15) holds the caller's value, given that the
+   function body writes no callee-saved register other than those the translator saw as a destination *)
+Theorem C07_asm_callee_saved_preserved : forall r, In r asm_frames -> forall (rg0 rg1 : regs) stack,
+  (forall x, mem x (f_written r) = false -> rg1 x = rg0 x) ->
+  forall x, do_pops rg1 (f_pops r) (do_pushes rg0 (f_pushes r) stack) x = rg0 x.
+Proof.
+  intros r Hr rg0 rg1 stack Hb x. pose proof (C07_row_ok r Hr) as Hok. unfold frame_ok in Hok.
+  apply andb_true_iff in Hok. destruct Hok as [Hok H4]. apply andb_true_iff in Hok. destruct Hok as [Hok H3].
+  apply andb_true_iff in Hok. destruct Hok as [_ H2].
+  exact (callee_saved_preserved (f_pushes r) (f_pops r) (f_written r) rg0 rg1 stack H2 H3 H4 Hb x).
+Qed.
+
+(* non-vacuity: eleven functions were translated; blake3_hash_many_sse41 has a 360-byte realigned frame whose highest
+   access ends at byte 352 and saves all six registers *)
+Example C07_asm_nonvacuous :
+  length asm_frames = 11%nat /\
+  (exists r, In r asm_frames /\ f_frame r = 360 /\ f_realigned r = true /\
+             existsb (fun a => (fst a =? 336) && (snd a =? 16)) (f_accesses r) = true /\
+             length (f_pushes r) = 6%nat).
+Proof.
+  split; [reflexivity|]. exists (nth 3 asm_frames ([], false, 0, [], [], [], [])).
+  vm_compute. repeat split; auto.
+Qed.
+
 Example C07_nonvacuous :
   exists outs, hash_many [repeat 1 64; repeat 2 64; repeat 3 64] Spec.Compress.IV 0 true 0 1 2 3 = Ok outs /\ length outs = 3%nat.
 Proof. vm_compute. eexists. split; reflexivity. Qed.
@@ -64,5 +112,9 @@ Print Assumptions C07_one_shot_indices_in_bounds.
 Print Assumptions C07_hash_many_footprint.
 Print Assumptions C07_hasher_indices_in_bounds.
 Print Assumptions C07_c_glue_in_bounds.
+Print Assumptions C07_asm_frames_ok.
+Print Assumptions C07_row_ok.
+Print Assumptions C07_asm_stack_accesses_inside_frame.
+Print Assumptions C07_asm_callee_saved_preserved.
 Print Assumptions C07_xof_many_footprint.
 Print Assumptions C07_fill_footprint.
